@@ -802,6 +802,70 @@ def fresh_dir_case(rng, sess: Session):
             sess.nontrivial.add(chash(("fresh", nt, inj[0])))
 
 
+def poison_case(rng, sess: Session):
+    """Records the UTF-8 encoder cannot take (lone surrogates, as PEP 383 decoding of foreign bytes produces them) among
+    sound ones: a record is either refused (the append raises, nothing of it reaches the file) or it is one complete UTF-8
+    JSON line that reads back as the record; the stream stays readable as UTF-8 text throughout."""
+    from clematis.io.log import append_jsonl, _append_jsonl_unbuffered
+
+    with tmpdir("c16p_") as d:
+        old_env = {k: os.environ.get(k) for k in ("CLEMATIS_LOG_DIR", "CI")}
+        os.environ["CLEMATIS_LOG_DIR"] = d
+        os.environ.pop("CI", None)
+        try:
+            name = rng.choice(["custom.jsonl", "t1.jsonl"])
+            accepted, refused = [], 0
+            for i in range(rng.randint(3, 10)):
+                kind = rng.choice(["sound", "sound", "astral", "lone-low", "lone-high", "escape-byte", "in-key"])
+                rec = {"i": i, "text": "plain é 中"}
+                if kind == "astral":
+                    rec["text"] = "\U0001f600 \U00010000"
+                elif kind == "lone-low":
+                    rec["text"] = "x\udc80y"
+                elif kind == "lone-high":
+                    rec["text"] = "\ud83dz"
+                elif kind == "escape-byte":
+                    rec["text"] = os.fsdecode(b"caf\xe9 \xff")
+                elif kind == "in-key":
+                    rec = {"i": i, "k\udcffey": 1}
+                writer = append_jsonl if rng.random() < 0.6 else _append_jsonl_unbuffered
+                try:
+                    writer(name, rec)
+                    accepted.append(rec)
+                except Exception:
+                    refused += 1
+            sess.evaluations += 1
+            sess.count("poison_histories")
+            sess.count("records_refused_by_the_writer", refused)
+            pth = os.path.join(d, name)
+            raw = open(pth, "rb").read() if os.path.exists(pth) else b""
+            case = {"poison": True, "accepted": len(accepted), "refused": refused}
+            try:
+                txt = raw.decode("utf-8")
+            except UnicodeDecodeError as ex:
+                sess.violation("stream-is-not-utf-8-text-after-an-unencodable-record", case, str(ex)[:120])
+                return
+            lines = txt.split("\n")
+            if raw and lines[-1] != "":
+                sess.violation("stream-does-not-end-with-a-line-feed", case, None)
+                return
+            try:
+                got = [json.loads(l) for l in lines[:-1]] if raw else []
+            except Exception as ex:
+                sess.violation("line-is-not-json-after-an-unencodable-record", case, repr(ex)[:120])
+                return
+            if got != accepted:
+                sess.violation("accepted-records-differ-from-the-lines-on-disk", case, {"on_disk": len(got), "accepted": len(accepted)})
+            elif refused:
+                sess.nontrivial.add(chash(("poison", len(accepted), refused, name)))
+        finally:
+            for k, v in old_env.items():
+                if v is None:
+                    os.environ.pop(k, None)
+                else:
+                    os.environ[k] = v
+
+
 def concurrent_rewrite_case(rng, sess: Session):
     """Two compactions of one stream at the same moment (a thread switch offered at every statement of the atomic writer):
     neither raises, the log afterwards is exactly one of the two record sets, nothing else is left in the directory."""
@@ -1082,6 +1146,8 @@ def _work(args):
                 capture_case(rng, sess)
             for _ in range(12 if q else 400):
                 concurrent_rewrite_case(rng, sess)
+            for _ in range(30 if q else 1000):
+                poison_case(rng, sess)
     except Exception as ex:
         import traceback
         sess.inconclusive_because(f"harness error {type(ex).__name__}: {ex} @ {traceback.format_exc()[-500:]}")
@@ -1114,6 +1180,8 @@ def main(tier: str, seed: int):
     sess.require("rotation_histories_with_multi_digit_generations", 8)
     sess.require("capture_histories", 100)
     sess.require("concurrent_rewrites", 30)
+    sess.require("poison_histories", 60)
+    sess.require("records_refused_by_the_writer", 20)
     sess.require("capture_bursts_of_5000_inside_a_capture", 2)
     sess.require("nested_captures", 50)
     sess.finish()
@@ -1126,6 +1194,9 @@ def replay(body, tier, seed):
     rng = random.Random(0)
     if "threads" in case:
         writers_case(case, sess)
+    elif "poison" in case:
+        for _ in range(300):
+            poison_case(rng, sess)
     elif "concurrent_rewrite" in case:
         for _ in range(200):
             concurrent_rewrite_case(rng, sess)
